@@ -280,9 +280,9 @@ def run(tier, seed):
     total = Result()
     ops = op_alphabet(1)
     if tier == 'quick':
-        L, nrandom, variants = 2, 8000, [('release', 1.0), ('dev', 0.3)]
+        L, nrandom, variants = 2, 8000, [('release', 1.0), ('dev', 0.3), ('plain', 0.2)]
     else:
-        L, nrandom, variants = 3, 150000, [('release', 1.0), ('dev', 0.2), ('nightly', 0.2)]
+        L, nrandom, variants = 3, 150000, [('release', 1.0), ('dev', 0.2), ('nightly', 0.2), ('plain', 0.1)]
     hists = []
     for n in range(0, L + 1):
         hists.extend(itertools.product(ops, repeat=n))
